@@ -144,6 +144,9 @@ func (w *fworld) onSend(v any, done bool) {
 		}
 		w.subs = append(w.subs, sub)
 		w.s.Event("submit #%d useOld=%v by %s", sub.idx, sub.useOld, cur)
+		if sub.useOld {
+			w.stat("probe.re-apply-request-from-the-validator")
+		}
 		return
 	}
 	for i := len(w.subs) - 1; i >= 0; i-- {
@@ -175,7 +178,32 @@ func (w *fworld) reloadStub() error {
 			break
 		}
 	}
+	if n := len(w.attempts); n > 0 {
+		prev := w.attempts[n-1]
+		if !prev.signal {
+			w.stat("probe.attempt-after-a-failed-signal")
+		}
+		// submissions coalesced into this attempt
+		k := 0
+		for _, sub := range w.subs {
+			if sub.startAt >= prev.at && sub.startAt <= a.at {
+				k++
+			}
+		}
+		if k >= 2 {
+			w.stat("probe.attempt-coalesces-2-or-more-submissions")
+		}
+	}
+	for _, sub := range w.subs {
+		if !sub.done {
+			w.stat("probe.attempt-while-a-submission-is-in-flight")
+			break
+		}
+	}
 	w.attempts = append(w.attempts, a)
+	if a.lastRet >= 0 {
+		w.stat("probe.stale-apply-clause-checked")
+	}
 	// C19: never an older configuration after a newer one was submitted
 	if a.lastRet >= 0 {
 		ok := false
@@ -480,6 +508,12 @@ func gfrrRun(env *runner.Env) (res *runner.Result) {
 				w.violate("C19", "latest-configuration-not-applied", fmt.Sprintf("%v after the last fault and the last submission FRR does not run the most recently submitted configuration (#%d); attempts=%d reloads=%d; running differs at %s", settle, last.idx, len(w.attempts), w.reloads, firstDiff(w.running, last.text)))
 			}
 		}
+		if w.viol == nil && w.trouble == "" && w.workDone == w.nworkers && converged() {
+			w.stat("probe.latest-configuration-applied-at-the-end")
+			if w.lastFault > 0 {
+				w.stat("probe.converged-after-faults")
+			}
+		}
 		if w.viol == nil && w.trouble == "" && env.On("C19") {
 			w.checkHistory()
 		}
@@ -556,6 +590,7 @@ func (w *fworld) checkHistory() {
 				have = false
 			}
 		}
+		w.stat("probe.consecutive-attempts-compared")
 		if !justified {
 			w.violate("C19", "reload-without-change", fmt.Sprintf("reload attempt at %v although every update since the previous successful attempt (%v) was identical to it", a.at, prev.at))
 			return
